@@ -20,7 +20,8 @@ pub const TOKEN: &str = "token";
 
 /// callers: the initial admin, a second admin candidate, a stranger; group configurations may add
 /// the member addresses A and B (indices 3, 4 = MEMBERS[0], MEMBERS[1]) as callers
-pub const CALLERS: [&str; 5] = ["AD", "AD2", "X", "A", "B"];
+/// and the default hook addresses H1, H2 (indices 5, 6) as callers
+pub const CALLERS: [&str; 7] = ["AD", "AD2", "X", "A", "B", "H1", "H2"];
 /// default hook addresses; a configuration may instead name callers or stakers as hooks
 pub const HOOKS: [&str; 3] = ["H1", "H2", "H3"];
 pub const MEMBERS: [&str; 3] = ["A", "B", "C"];
@@ -121,8 +122,9 @@ pub struct GroupCfg {
     pub remove_lists: Vec<Vec<u8>>,
     /// callers that try UpdateMembers with the full alphabet (others get a reduced one)
     pub full_callers: Vec<u8>,
-    /// how many of CALLERS call (3 = admins and a stranger, 5 = also the members A and B)
-    pub n_callers: u8,
+    /// indices into CALLERS of the addresses that call (0,1 = admin candidates, 2 = stranger,
+    /// 3,4 = the members A and B, 5,6 = the hook addresses H1 and H2)
+    pub callers: Vec<u8>,
     /// labels of the addresses offered to AddHook/RemoveHook (may include the admins themselves)
     pub hooks: Vec<&'static str>,
     pub hmax: u64,
@@ -199,7 +201,7 @@ impl Model for GroupAdmin {
         if s.dead {
             return out;
         }
-        for by in 0..cfg.n_callers {
+        for &by in &cfg.callers {
             out.push(GAct::UpdateAdmin { by, new: None });
             out.push(GAct::UpdateAdmin { by, new: Some(0) });
             out.push(GAct::UpdateAdmin { by, new: Some(1) });
@@ -340,6 +342,8 @@ pub struct StakeCfg {
     /// every message (hook addresses are sink contracts) and the notifications are read from the
     /// dispatch trace (messages sent BY the staking contract)
     pub cw20: bool,
+    /// indices into CALLERS of the addresses that send the admin/hook calls
+    pub callers: Vec<u8>,
     /// labels of the addresses offered to AddHook/RemoveHook (may include a staker)
     pub hooks: Vec<&'static str>,
     pub hmax: u64,
@@ -443,7 +447,7 @@ impl Model for StakeAdmin {
         if s.dead {
             return out;
         }
-        for by in 0..3u8 {
+        for &by in &cfg.callers {
             out.push(SAct::UpdateAdmin { by, new: None });
             out.push(SAct::UpdateAdmin { by, new: Some(0) });
             out.push(SAct::UpdateAdmin { by, new: Some(1) });
